@@ -15,6 +15,7 @@ is then an observed event.
 import ctypes as C
 import math
 import os
+import re
 import shutil
 from pathlib import Path
 
@@ -516,6 +517,20 @@ def build_spec(cwd, spec, text, interfaces=IFACES, flags=("-O1",), mutate=None):
     if r.rc != 0 or r.timed_out:
         return {i: {"lib": None, "stage": "mfront", "log": (r.out + r.err)[-3000:], "rc": r.rc} for i in interfaces}
     return {i: compile_iface(cwd, spec, i, flags, mutate) for i in interfaces}
+
+
+def tool_unavailable(r):
+    """the tool could not be *executed* (binary or one of its libraries is being re-linked by a concurrent build of the
+    tree, ...): a harness failure, never a verdict on the code under test"""
+    txt = (r.err or "") + (r.out if isinstance(r.out, str) else "")
+    return r.rc in (126, 127) or any(m in txt for m in ("error while loading shared libraries", "file too short", "Permission denied",
+                                                        "Text file busy", "cannot execute", "Exec format error"))
+
+
+def link_race(log):
+    """the compiler / linker met a TFEL library that a concurrent build was re-writing"""
+    return any(m in (log or "") for m in ("file truncated", "file too short", "file not recognized", "Text file busy")) or \
+        bool(re.search(r"cannot find -lTFEL|libTFEL\w+\.so[^\n]*No such file", log or ""))
 
 
 def first_error(log):
